@@ -4,6 +4,7 @@ import os, sys, json, time, subprocess, shutil, signal, hashlib, random, traceba
 from concurrent.futures import ThreadPoolExecutor
 
 VERIF = os.path.dirname(os.path.dirname(os.path.abspath(__file__)))
+OUT = os.environ.get('VF_OUT', VERIF)      # where evidence/, replay/, triage/ are written (scratch runs against a patched copy set VF_OUT)
 sys.path.insert(0, VERIF)
 from vf import build
 
@@ -122,7 +123,7 @@ class Ctx:
             print('INCONCLUSIVE property=%s build of /repo working tree failed' % pid)
             print(str(e)[-3000:], file=sys.stderr)
             sys.exit(2)
-        shutil.rmtree(os.path.join(VERIF, 'replay', pid), ignore_errors=True)
+        shutil.rmtree(os.path.join(OUT, 'replay', pid), ignore_errors=True)
         self.rundir = os.path.join(build.WORK, 'run', '%s-%d' % (pid, os.getpid()))
         shutil.rmtree(self.rundir, ignore_errors=True)
         os.makedirs(self.rundir)
@@ -154,7 +155,7 @@ class Ctx:
         for k, w, _ in self.viol:
             if k == key: return True          # one replay per distinct key
         self.nrep += 1
-        rd = os.path.join(VERIF, 'replay', self.pid, '%03d-%s' % (self.nrep, re.sub(r'[^A-Za-z0-9_.:=+-]', '_', key)[:80]))
+        rd = os.path.join(OUT, 'replay', self.pid, '%03d-%s' % (self.nrep, re.sub(r'[^A-Za-z0-9_.:=+-]', '_', key)[:80]))
         shutil.rmtree(rd, ignore_errors=True)
         os.makedirs(rd, exist_ok=True)
         meta = {'property': self.pid, 'key': key, 'what': what, 'tree': self.b.th, 'seed': self.seed, 'tier': self.tier}
@@ -186,14 +187,14 @@ class Ctx:
         ev = {'property_id': self.pid, 'tier': self.tier, 'seed': self.seed, 'level': self.level,
               'coverage': cov, 'assumptions': self.assumptions, 'wall_s': round(time.time() - self.t0, 1),
               'violations': len(self.viol)}
-        os.makedirs(os.path.join(VERIF, 'evidence'), exist_ok=True)
-        tmp = os.path.join(VERIF, 'evidence', self.pid + '.json.tmp')
+        os.makedirs(os.path.join(OUT, 'evidence'), exist_ok=True)
+        tmp = os.path.join(OUT, 'evidence', self.pid + '.json.tmp')
         json.dump(ev, open(tmp, 'w'), indent=1, default=str)
-        os.replace(tmp, os.path.join(VERIF, 'evidence', self.pid + '.json'))
+        os.replace(tmp, os.path.join(OUT, 'evidence', self.pid + '.json'))
         shutil.rmtree(self.rundir, ignore_errors=True)
         if os.environ.get('VF_TRIAGE'):
-            os.makedirs(os.path.join(VERIF, 'triage'), exist_ok=True)
-            with open(os.path.join(VERIF, 'triage', self.pid + '.jsonl'), 'w') as fh:
+            os.makedirs(os.path.join(OUT, 'triage'), exist_ok=True)
+            with open(os.path.join(OUT, 'triage', self.pid + '.jsonl'), 'w') as fh:
                 for key, what, rd in self.viol:
                     fh.write(json.dumps({'property': self.pid, 'key': key, 'status': 'open', 'witness': os.path.relpath(rd, VERIF), 'what': what[:300]}) + '\n')
         for key, what in sorted(self.known_hit.items()):
@@ -293,3 +294,18 @@ def fault_site(b, p, variant):
             return nm
     return '?'
 
+def fault_chain(b, p, n=3):
+    """like fault_site, but the innermost n repository functions joined with `<' (a finer key for faults inside the optimiser)"""
+    blob = (p.err + p.out).decode(errors='replace')
+    m = re.search(r'ALDOR_VERIF_BT begin\n(.*?)ALDOR_VERIF_BT end', blob, re.S)
+    if not m: return fault_site(b, p, 'plain')
+    addrs = re.findall(r'^\S*/aldor\(\+(0x[0-9a-f]+)\)', m.group(1), re.M)
+    if not addrs: return '?'
+    r = run(['addr2line', '-f', '-e', b.aldor] + addrs[:16], timeout=60)
+    names = r.out.decode(errors='replace').split('\n')[0::2]
+    out = []
+    for nm in names:
+        if nm and nm not in ('compSignalHandler', 'verifBacktrace', '??', 'osFaultHandler', 'osSignalHandler') and not nm.startswith('_') and nm not in out:
+            out.append(nm)
+            if len(out) == n: break
+    return '<'.join(out) or '?'
